@@ -33,7 +33,7 @@ CLAIMED = {
     "C10": {
         "text": ("partial - the quantisation core of scaled integer output (convert_range.inl; input float, scale factor float; one complete proof per "
                  "output type signed/unsigned char, short, unsigned short, int, unsigned int; every float bit pattern of the data's largest, smallest and "
-                 "any value in between; two sub-domains: extremes zero or >= 1e-30 in magnitude, and the rest): (a) find_scale_factor (statement "
+                 "any value in between, incoming scale factor 0 (automatic) or any preferred positive factor; two sub-domains: extremes zero or >= 1e-30 in magnitude, and the rest): (a) find_scale_factor (statement "
                  "kernel) returns a finite factor with which the largest and the smallest value fit the output type with the code's margin; factor 0 "
                  "(everything written as 0) only for all-zero data (or all non-positive data for unsigned output); a negative factor only for all-negative "
                  "data written to an unsigned type; (b) composition of the real find_scale_factor and the real per-element statement of convert_range "
